@@ -152,6 +152,43 @@ def apply_mutant(repo, m):
     open(p, "w").write("\n".join(lines))
 
 
+def wave2_mutants():
+    """Second wave of line operators: integer casts narrowed / widened, a condition negated, a match guard dropped,
+    ranges starting one later, wrapping arithmetic made saturating, Some(..) replaced by None, early error returns removed."""
+    res = []
+    CASTS = [("as u8", "as u16"), ("as u16", "as u8"), ("as u16", "as u32"), ("as u32", "as u16"), ("as usize", "as u16"), ("as usize", "as u8")]
+    for f in FILES:
+        for i, t in code_lines(f):
+            code = strip_strings(t).split("//")[0]
+            out = []
+            for a, b in CASTS:
+                for m in re.finditer(re.escape(a) + r"\b", code):
+                    out.append(("cast:%s->%s" % (a, b), t[:m.start()] + b + t[m.end():]))
+            m = re.match(r"^(\s*)(\} else )?if (?!let )(.+) \{\s*$", code)
+            if m and "{" not in m.group(3):
+                out.append(("cond:negated", "%s%sif !(%s) {" % (m.group(1), m.group(2) or "", t.strip()[len((m.group(2) or "")) + 3:-2].strip())))
+            m = re.search(r"\bif ([^{}=>]|==|!=|>=|<=)+?=> ", code)
+            if m and ("=>" in code) and not code.strip().startswith("if "):
+                g = re.search(r" if (.+?) =>", t)
+                if g:
+                    out.append(("guard:dropped", t[:g.start()] + " if true =>" + t[g.end():]))
+            for m in re.finditer(r"\b0\.\.", code):
+                out.append(("range:0..->1..", t[:m.start()] + "1.." + t[m.end():]))
+            for a, b in (("wrapping_add", "saturating_add"), ("wrapping_sub", "saturating_sub"), ("saturating_sub", "wrapping_sub")):
+                for m in re.finditer(a, code):
+                    out.append(("arith:%s->%s" % (a, b), t[:m.start()] + b + t[m.end():]))
+            m = re.match(r"^(\s*)return Err\(.*\);\s*$", code)
+            if m:
+                out.append(("ret:err-removed", m.group(1) + "// (early error return removed)"))
+            m = re.search(r"\bSome\(([^()]*)\)(?!\s*=>)(?!\s*=\s)", code)
+            if m and "=>" in code and code.index("=>") < m.start():
+                out.append(("some->none", t[:m.start()] + "None" + t[m.end():]))
+            for op, after in out:
+                if after != t:
+                    res.append({"file": f, "line": i + 1, "op": op, "before": t.strip(), "after": after.strip(), "_after_full": after})
+    return res
+
+
 def fn_mutants():
     """cargo-mutants style: the body of every non-test function replaced by a constant of its return type."""
     res = []
@@ -308,7 +345,19 @@ def main():
         elif a == "--only":
             only = args.pop(0).split(",")
     os.makedirs(OUT, exist_ok=True)
-    if cmd == "fnlist":
+    if cmd == "wave2":
+        ms = load()
+        have = {(m["file"], m["line"], m["after"]) for m in ms}
+        n = 0
+        for m in wave2_mutants():
+            if (m["file"], m["line"], m["after"]) not in have:
+                n += 1
+                have.add((m["file"], m["line"], m["after"]))
+                m["id"] = "W%03d" % n
+                ms.append(m)
+        save(ms)
+        print(n, "second-wave mutants added")
+    elif cmd == "fnlist":
         ms = load()
         have = {(m["file"], m["line"], m["op"]) for m in ms}
         n = 0
